@@ -456,7 +456,7 @@ func vStringerArg() fmt.Stringer {
 
 type vPtrStringer struct{}
 
-func (p *vPtrStringer) String() string { return "nilptr" }
+func (p *vPtrStringer) String() string { vTouched++; return "nilptr" }
 
 func vArg_fmt_Stringer() fmt.Stringer { return vStringerArg() }
 func vArg_S_fmt_Stringer() []fmt.Stringer {
@@ -776,7 +776,16 @@ func vArgFields() interface{} {
 
 // ---- C04 inertness of the nil event ----
 
-func vNilSetup() { vTouched = 0 }
+// vNilSetup: every user-supplied callback reachable from an Event method bumps vTouched.
+func vNilSetup() {
+	vTouched = 0
+	ErrorMarshalFunc = func(err error) interface{} { vTouched++; return err }
+	ErrorStackMarshaler = func(err error) interface{} { vTouched++; return nil }
+	InterfaceMarshalFunc = func(v interface{}) ([]byte, error) { vTouched++; return []byte("null"), nil }
+	TimestampFunc = func() time.Time { vTouched++; return time.Unix(0, 0) }
+	CallerMarshalFunc = func(pc uintptr, file string, line int) string { vTouched++; return "c" }
+	LevelFieldMarshalFunc = func(l Level) string { vTouched++; return "l" }
+}
 
 func vCheckNilNone(name string) {
 	zzverif.Assert(vTouched == 0, name+" on a filtered event ran a user callback")
@@ -919,4 +928,25 @@ func VH_C01_line() {
 		zzverif.Assert(vEventOK(w.calls[0].buf), "line: the written bytes are exactly one well-formed event (JSON object + newline / CBOR indefinite map)")
 	}
 	zzverif.Reach("C01/line")
+}
+
+// Strings of 2..3 symbolic bytes straight through the string/bytes/key encoders (cheap: no
+// surrounding event), so that two-byte UTF-8 shapes are always inside the quick bound.
+func VH_C01_string_bytes() {
+	n := zzverif.Param("rawstrlen", 2)
+	s := zzverif.String(n)
+	var out []byte
+	switch zzverif.Choice(3) {
+	case 0:
+		out = enc.AppendString(nil, s)
+	case 1:
+		out = enc.AppendBytes(nil, []byte(s))
+	case 2:
+		k := enc.AppendKey([]byte{'{'}, s)
+		zzverif.Assert(k[len(k)-1] == ':', "key ends with a colon")
+		out = k[1 : len(k)-1]
+	}
+	zzverif.Observe("string", out)
+	zzverif.Assert(vJSONString(out, 0) == len(out), "string/bytes/key encoders emit one well-formed JSON string literal in valid UTF-8 without control bytes")
+	zzverif.Reach("C01/string-bytes")
 }
